@@ -165,7 +165,7 @@ def check_sets(ctx, monitor, lists, dist, thresh_of, n, key, info, ragree, exact
                       lambda: f"particle {i + 1}: neighbours not in increasing distance: {dl.tolist()}", info)
 
 
-def one_case(ctx, rng, wd, which, inclusive=False):
+def one_case(ctx, rng, wd, which, inclusive=False, force_N=None):
     from PyMatterSim.neighbors import calculate_neighbors as cn
     K = int(rng.integers(1, 4)) if which == "typecut" else int(rng.integers(1, 3))
     frames = int(rng.choice([1, 1, 2, 4]))
@@ -192,7 +192,10 @@ def one_case(ctx, rng, wd, which, inclusive=False):
         ppp = np.ones(d, dtype=int)
         frames = 1
     else:
-        snaps, inf, cell = gc.static_system(rng, d=d, K=K, frames=frames, nmin=max(3, K + 1), nmax=50 if not ctx.thorough else 90, vary_tilt=True, big=True)
+        if force_N:
+            frames = 1
+        snaps, inf, cell = gc.static_system(rng, d=d, K=K, N=force_N, frames=frames, nmin=max(3, K + 1), nmax=50 if not ctx.thorough else 90, vary_tilt=True, big=True,
+                                            poskind="gas" if force_N else None)
         ppp = gc.random_mask(rng, d)
         types = snaps.snapshots[0].particle_type
     n = inf["N"]
@@ -212,6 +215,13 @@ def one_case(ctx, rng, wd, which, inclusive=False):
         Nn = n - 1 if r < 0.15 else (1 if r < 0.25 else int(rng.integers(1, n)))
         info = lambda: {**info0, "N_nn": Nn}  # noqa: E731
         key = "Nnearests" + ("/N==nparticle-1" if Nn == n - 1 else "")
+        if rng.random() < 0.3 and n >= 4 and not force_N:
+            # history: the same trajectory analysed immediately before with ONE argument changed (other N, or other periodicity mask)
+            if rng.random() < 0.5:
+                ctx.call(key + "/prior_call", cn.Nnearests, snaps, Nn - 1 if Nn > 1 else Nn + 1, ppp, fn, data=info)
+            else:
+                ctx.call(key + "/prior_call", cn.Nnearests, snaps, Nn, 1 - ppp, fn, data=info)
+            ctx.count("prior_call_one_argument_changed")
         ok, _ = ctx.call(key, cn.Nnearests, snaps, Nn, ppp, fn, data=info)
         ctx.case(f"nnearest/{d}D/{inf['cell']}", snaps.snapshots[0].positions, H, ppp, Nn, nontrivial=n >= 4,
                  sample={"kind": "Nnearests", "N_nn": Nn, "n": n, "d": d, "cell": inf["cell"], "ppp": ppp})
@@ -238,6 +248,12 @@ def one_case(ctx, rng, wd, which, inclusive=False):
                     rcv = min(rcv, 0.95 * ragree)
             info = lambda: {**info0, "r_cut": rcv}  # noqa: E731
             key = "cutoffneighbors" + ("/inclusive" if inclusive else "")
+            if rng.random() < 0.3 and not force_N:
+                if rng.random() < 0.5:
+                    ctx.call(key + "/prior_call", cn.cutoffneighbors, snaps, rcv * 1.25, ppp, fn, data=info)
+                else:
+                    ctx.call(key + "/prior_call", cn.cutoffneighbors, snaps, rcv, 1 - ppp, fn, data=info)
+                ctx.count("prior_call_one_argument_changed")
             ok, _ = ctx.call(key, cn.cutoffneighbors, snaps, rcv, ppp, fn, data=info)
             cutm = None
         else:
@@ -253,6 +269,9 @@ def one_case(ctx, rng, wd, which, inclusive=False):
                 cutm = np.minimum(cutm, 0.95 * ragree)
             info = lambda: {**info0, "r_cut_matrix": cutm}  # noqa: E731
             key = "cutoffneighbors_particletype" + ("/inclusive" if inclusive else "")
+            if rng.random() < 0.3 and not force_N:
+                ctx.call(key + "/prior_call", cn.cutoffneighbors_particletype, snaps, (cutm.T * 1.1).copy(), ppp, fn, data=info)
+                ctx.count("prior_call_one_argument_changed")
             ok, _ = ctx.call(key, cn.cutoffneighbors_particletype, snaps, cutm, ppp, fn, data=info)
         ctx.case(f"{which}/{d}D/{inf['cell']}" + ("/inclusive" if inclusive else ""), snaps.snapshots[0].positions, H, ppp,
                  rcv if which == "cutoff" else cutm, nontrivial=n >= 4,
@@ -309,6 +328,11 @@ def hostile_file(ctx, rng, wd):
 def run(ctx):
     from ..harness import fresh_dir, drop_dir
     wd = fresh_dir("c05")
+    if ctx.shard == 0 or ctx.thorough:
+        # one system far beyond the usual size per neighbour definition (block-wise / cell-list evaluation boundaries)
+        for which in ("nnearest", "cutoff", "typecut"):
+            one_case(ctx, ctx.rng(), wd, which, force_N=int(ctx.rng().choice([1100, 1500, 2100])))
+            ctx.count("systems_over_1000_particles")
     n = ctx.n(200, 600)
     for i in range(n):
         for which in ("nnearest", "cutoff", "typecut"):
